@@ -306,4 +306,297 @@ theorem reset_transform (arc : ArcFn α β) (posInf : α) (z0 : Renderer α β) 
   simp only [hR, hV] at this
   exact this
 
+/-! ## (b) everything a path hands to the rasteriser is sized / placed by the CURRENT rectangle -/
+
+/-- a rasteriser call agrees with the target rectangle `R`: `Draw` is over `R`, `Reset` has `R`'s size -/
+def OverRect (R : Rect) : RasterOp α β → Prop
+  | .draw r _ => r = R
+  | .reset w h => w = R.dx ∧ h = R.dy
+  | _ => True
+
+theorem overRect_pathOp (R : Rect) (op : RasterOp α β) (h : isPathOp op = true) : OverRect R op := by
+  cases op <;> first | trivial | cases h
+
+/-- one call: every `Draw` it makes is over the Renderer's current rectangle, every `Reset` of the
+    rasteriser has its size -/
+theorem step_overRect (arc : ArcFn α β) (hArc : ArcPure arc) (posInf : α) (z : Renderer α β) (c : Call α) :
+    ∀ op ∈ (z.step arc posInf c).2, OverRect z.r op := by
+  cases hs : isStyling c
+  · cases c <;> simp only [isStyling, Bool.true_eq_false] at hs
+    case startPath adj x y =>
+      have hstep : z.step arc posInf (.startPath adj x y) = z.startPath adj x y := rfl
+      rw [hstep, startPath_eq]
+      split
+      · intro op h; cases h
+      · intro op h
+        simp only [List.mem_cons, List.mem_nil_iff, or_false] at h
+        rcases h with rfl | rfl
+        · exact ⟨rfl, rfl⟩
+        · trivial
+    case closeEnd =>
+      by_cases hd : z.disabled = true
+      · simp only [Renderer.step, if_pos hd]; intro op h; cases h
+      · simp only [Renderer.step, if_neg hd, Renderer.closePath]
+        intro op h
+        simp only [List.cons_append, List.nil_append, List.mem_cons, List.mem_nil_iff, or_false] at h
+        rcases h with rfl | rfl
+        · trivial
+        · exact rfl
+    case d1 v x => exact fun op h => overRect_pathOp _ _ ((segment_frame arc posInf z _ rfl).2.2 hArc op h)
+    case d2 v x y => exact fun op h => overRect_pathOp _ _ ((segment_frame arc posInf z _ rfl).2.2 hArc op h)
+    case d4 v a b x y => exact fun op h => overRect_pathOp _ _ ((segment_frame arc posInf z _ rfl).2.2 hArc op h)
+    case d6 v a b c d x y => exact fun op h => overRect_pathOp _ _ ((segment_frame arc posInf z _ rfl).2.2 hArc op h)
+    case arc rel rx ry rot la sw x y =>
+      exact fun op h => overRect_pathOp _ _ ((segment_frame arc posInf z _ rfl).2.2 hArc op h)
+  · rw [(styling_refines arc posInf z c hs).1]; intro op h; cases h
+
+/-- any call sequence (no `SetRasterizer` in between): every `Draw` is over the rectangle the Renderer
+    has at the start, every rasteriser `Reset` has its size -/
+theorem run_overRect (arc : ArcFn α β) (hArc : ArcPure arc) (posInf : α) (cs : List (Call α)) :
+    ∀ z : Renderer α β, ∀ op ∈ (z.run arc posInf cs).2, OverRect z.r op := by
+  induction cs with
+  | nil => intro z op h; cases h
+  | cons c cs ih =>
+    intro z op h
+    rw [Lemmas.RendererVM.run_cons] at h
+    rcases List.mem_append.mp h with h | h
+    · exact step_overRect arc hArc posInf z c op h
+    · have := ih _ op h
+      rwa [step_r] at this
+
+/-- **(b) `draw_uses_current_rect`, history form.**  After ANY history `h` and `SetRasterizer r`, whatever
+    calls follow (until the next `SetRasterizer`): every `Draw` goes to `r` (normalised as `SetRasterizer`
+    does) and every `Reset` of the rasteriser has the size of `r` — never a rectangle of `h`. -/
+theorem draw_uses_current_rect (arc : ArcFn α β) (hArc : ArcPure arc) (posInf : α) (z0 : Renderer α β)
+    (h : List (RenOp α)) (r : Rect) (cs : List (Call α)) :
+    (z0.runOps arc posInf (h ++ .rast r :: cs.map .call)).2 =
+      (z0.runOps arc posInf h).2 ++ (((z0.runOps arc posInf h).1.setRasterizer r).run arc posInf cs).2 ∧
+    ∀ op ∈ (((z0.runOps arc posInf h).1.setRasterizer r).run arc posInf cs).2, OverRect (Rect.norm r) op := by
+  refine ⟨?_, run_overRect arc hArc posInf cs _⟩
+  rw [runOps_append, runOps_rast, runOps_calls]
+
+/-- **(b) `draw_uses_current_rect`, path form.**  A path `StartPath … ClosePathEndPath` that starts after
+    `SetRasterizer r` (any history before it, any calls `cs` in between — they cannot change the
+    rectangle) either makes no rasteriser call, or makes exactly: `Reset` to the size of `r`, `MoveTo`,
+    path segments, `ClosePath`, and ONE `Draw` over `r`, with the paint the machine prescribes for the
+    height of `r`. -/
+theorem path_after_rast (arc : ArcFn α β) (hArc : ArcPure arc) (posInf : α) (z0 : Renderer α β)
+    (h : List (RenOp α)) (r : Rect) (cs : List (Call α))
+    (adj : UInt8) (x y : α) (segs : List (Call α)) (hs : ∀ s ∈ segs, isSegment s = true) :
+    let z := (z0.runOps arc posInf (h ++ .rast r :: cs.map .call)).1
+    let out := (z.run arc posInf (.startPath adj x y :: (segs ++ [.closeEnd]))).2
+    z.r = Rect.norm r ∧
+    (((absVM z).paintChoice (Rect.norm r).dy adj = none ∧ out = []) ∨
+     ∃ p mid, (absVM z).paintChoice (Rect.norm r).dy adj = some p ∧ (∀ op ∈ mid, isPathOp op = true) ∧
+      out = .reset (Rect.norm r).dx (Rect.norm r).dy :: .moveTo (z.absX x) (z.absY y) ::
+        (mid ++ [.closePath, .draw (Rect.norm r) (realise z p)])) := by
+  intro z out
+  have hr : z.r = Rect.norm r := by
+    show (z0.runOps arc posInf (h ++ .rast r :: cs.map .call)).1.r = _
+    rw [runOps_r, rectAfter_append]; simp only [rectAfter]; exact rectAfter_calls _ cs
+  refine ⟨hr, ?_⟩
+  rw [← hr]
+  cases hp : (absVM z).paintChoice z.r.dy adj with
+  | none =>
+    left
+    refine ⟨rfl, ?_⟩
+    show (z.run arc posInf (.startPath adj x y :: (segs ++ [.closeEnd]))).2 = []
+    rw [path_silent arc posInf z adj x y segs hs hp]
+  | some p =>
+    right
+    obtain ⟨mid, hmid, hops, -⟩ := path_drawn_once arc hArc posInf z adj x y segs hs p hp
+    exact ⟨p, mid, rfl, hmid, hops⟩
+
+/-! ## (c) `Reset` re-seeds everything, after any history; reuse with `SetRasterizer` in the history -/
+
+/-- **(c) `reset_reseeds`.**  After ANY history (registers, selectors, LOD, smooth state dirtied; the same
+    or another palette stored; any rectangle), `Reset vb pal` leaves: colour registers = `pal` (all 64),
+    number registers all zero (all 64), both selectors 0, LOD = (0, +∞), viewBox = `vb`, palette = `pal`,
+    no smooth point, the rectangle of the last `SetRasterizer` untouched, the transform recalculated, and
+    the specification's initial machine state. -/
+theorem reset_reseeds (arc : ArcFn α β) (posInf : α) (z0 : Renderer α β) (h : List (RenOp α))
+    (vb : ViewBox α) (pal : Palette) :
+    let z := (z0.runOps arc posInf (h ++ [.call (.reset vb pal)])).1
+    z.cReg = pal ∧ z.nReg = Regs.const zeroA ∧ z.cSel = 0 ∧ z.nSel = 0 ∧ z.lod0 = zeroA ∧ z.lod1 = posInf ∧
+    z.viewBox = vb ∧ z.palette = pal ∧ z.prevSmoothType = 0 ∧ z.r = rectAfter z0.r h ∧
+    TransformOK z ∧ absVM z = VM.init posInf pal := by
+  intro z
+  have hz : z = (z0.runOps arc posInf h).1.reset posInf vb pal := by
+    show (z0.runOps arc posInf (h ++ [.call (.reset vb pal)])).1 = _
+    rw [runOps_append]; rfl
+  rw [hz]
+  exact ⟨rfl, rfl, rfl, rfl, rfl, rfl, rfl, rfl, rfl, runOps_r arc posInf h z0,
+    transformOK_reset _ posInf vb pal, abs_reset _ posInf vb pal⟩
+
+/-- `SetRasterizer` and `Reset` commute: the state after both does not depend on their order -/
+theorem rast_comm_reset (z : Renderer α β) (r : Rect) (posInf : α) (vb : ViewBox α) (pal : Palette) :
+    (z.reset posInf vb pal).setRasterizer r = (z.setRasterizer r).reset posInf vb pal := rfl
+
+/-- `SetRasterizer` commutes with every register-setting call -/
+theorem rast_comm_regCall (arc : ArcFn α β) (posInf : α) (z : Renderer α β) (r : Rect) (c : Call α)
+    (hc : isRegCall c = true) :
+    (z.setRasterizer r).step arc posInf c = ((z.step arc posInf c).1.setRasterizer r, []) := by
+  cases c <;> simp only [isRegCall, Bool.false_eq_true] at hc
+  case setCSel v => rfl
+  case setNSel v => rfl
+  case setLOD a b => rfl
+  case setCReg adj incr col => cases incr <;> rfl
+  case setNReg adj incr f => cases incr <;> rfl
+
+theorem rast_comm_regCalls (arc : ArcFn α β) (posInf : α) (r : Rect) (S : List (Call α))
+    (hS : ∀ c ∈ S, isRegCall c = true) :
+    ∀ z : Renderer α β, (z.setRasterizer r).run arc posInf S = ((z.run arc posInf S).1.setRasterizer r, []) ∧
+      (z.run arc posInf S).2 = [] := by
+  induction S with
+  | nil => intro z; exact ⟨rfl, rfl⟩
+  | cons c S ih =>
+    intro z
+    have hc := hS c (List.mem_cons_self ..)
+    obtain ⟨i1, i2⟩ := ih (fun c h => hS c (List.mem_cons_of_mem _ h)) (z.step arc posInf c).1
+    rw [Lemmas.RendererVM.run_cons, Lemmas.RendererVM.run_cons, rast_comm_regCall arc posInf z r c hc, i1, i2,
+      (styling_refines arc posInf z c (regCall_styling hc)).1]
+    exact ⟨rfl, rfl⟩
+
+/-- the bracketing protocol extended to histories: `SetRasterizer` is allowed anywhere -/
+def pathStepOp : Bool → RenOp α → Option Bool
+  | b, .rast _ => some b
+  | b, .call c => pathStep b c
+
+def WellBracketedOps : Bool → List (RenOp α) → Prop
+  | _, [] => True
+  | b, op :: ops => match pathStepOp b op with
+    | some b' => WellBracketedOps b' ops
+    | none => False
+
+theorem wellBracketedOps_calls (cs : List (Call α)) : ∀ b, WellBracketed b cs → WellBracketedOps b (cs.map .call) := by
+  induction cs with
+  | nil => intro _ _; trivial
+  | cons c cs ih =>
+    intro b h
+    simp only [WellBracketed] at h
+    simp only [List.map_cons, WellBracketedOps, pathStepOp]
+    cases hc : pathStep b c with
+    | none => rw [hc] at h; exact h.elim
+    | some b' => rw [hc] at h; exact ih b' h
+
+theorem setRasterizer_upd (z : Renderer α β) (d : Bool) (f : Paint β) (a b c e : α) (r : Rect) :
+    (upd z d f a b c e).setRasterizer r = upd (z.setRasterizer r) d f zeroA zeroA zeroA zeroA := rfl
+
+theorem shared_upd (z : Renderer α β) (d : Bool) (f : Paint β) (a b c e : α) : shared (upd z d f a b c e) = shared z := rfl
+
+theorem stepOp_rel (arc : ArcFn α β) (posInf : α) (b b' : Bool) (z₁ z₂ : Renderer α β) (op : RenOp α)
+    (hr : Rel b z₁ z₂) (hc : pathStepOp b op = some b') :
+    (z₁.stepOp arc posInf op).2 = (z₂.stepOp arc posInf op).2 ∧
+    Rel b' (z₁.stepOp arc posInf op).1 (z₂.stepOp arc posInf op).1 := by
+  cases op with
+  | call c => exact step_rel arc posInf b b' z₁ z₂ c hr hc
+  | rast r =>
+    simp only [pathStepOp, Option.some.injEq] at hc
+    subst hc
+    refine ⟨rfl, ?_⟩
+    have hs := eq_upd_of_shared z₁ z₂ (rel_shared hr)
+    have hsh : shared (z₁.setRasterizer r) = shared (z₂.setRasterizer r) := by
+      rw [hs, setRasterizer_upd, shared_upd]
+    cases b with
+    | false => exact hsh
+    | true =>
+      obtain ⟨-, h2, h3⟩ := hr
+      exact ⟨hsh, h2, fun hd => by rw [h3 hd]⟩
+
+theorem runOps_rel (arc : ArcFn α β) (posInf : α) (B : List (RenOp α)) :
+    ∀ (b : Bool) (z₁ z₂ : Renderer α β), Rel b z₁ z₂ → WellBracketedOps b B →
+      (z₁.runOps arc posInf B).2 = (z₂.runOps arc posInf B).2 ∧
+      shared (z₁.runOps arc posInf B).1 = shared (z₂.runOps arc posInf B).1 := by
+  induction B with
+  | nil => intro b z₁ z₂ hr _; exact ⟨rfl, rel_shared hr⟩
+  | cons c B ih =>
+    intro b z₁ z₂ hr hw
+    simp only [WellBracketedOps] at hw
+    cases hc : pathStepOp b c with
+    | none => rw [hc] at hw; exact hw.elim
+    | some b' =>
+      rw [hc] at hw
+      have hs := stepOp_rel arc posInf b b' z₁ z₂ c hr hc
+      have hi := ih b' _ _ hs.2 hw
+      rw [runOps_cons, runOps_cons, hs.1, hi.1]
+      exact ⟨rfl, hi.2⟩
+
+/-- C17 over histories, same rectangle: two Renderers in ANY states that point at the same rectangle make
+    the same rasteriser calls from a `Reset` on, for every well-bracketed history `B` — which may now
+    contain `SetRasterizer` (between paths or anywhere else). -/
+theorem reset_forgets_hist (arc : ArcFn α β) (posInf : α) (z₁ z₂ : Renderer α β) (hr : z₁.r = z₂.r)
+    (vb : ViewBox α) (pal : Palette) (B : List (RenOp α)) (hB : WellBracketedOps false B) :
+    (z₁.runOps arc posInf (.call (.reset vb pal) :: B)).2 = (z₂.runOps arc posInf (.call (.reset vb pal) :: B)).2 ∧
+    shared (z₁.runOps arc posInf (.call (.reset vb pal) :: B)).1 =
+      shared (z₂.runOps arc posInf (.call (.reset vb pal) :: B)).1 := by
+  rw [runOps_reset, runOps_reset]
+  exact runOps_rel arc posInf B false _ _ (reset_eqS posInf z₁ z₂ hr vb pal) hB
+
+/-- **(c) `SetRasterizer r; Reset; B`.**  Two Renderers in ANY two states (different rectangles, transforms,
+    registers, palettes, paths open or disabled, …) make exactly the same rasteriser calls. -/
+theorem rast_reset_forgets (arc : ArcFn α β) (posInf : α) (z₁ z₂ : Renderer α β) (r : Rect)
+    (vb : ViewBox α) (pal : Palette) (B : List (RenOp α)) (hB : WellBracketedOps false B) :
+    (z₁.runOps arc posInf (.rast r :: .call (.reset vb pal) :: B)).2 =
+      (z₂.runOps arc posInf (.rast r :: .call (.reset vb pal) :: B)).2 ∧
+    shared (z₁.runOps arc posInf (.rast r :: .call (.reset vb pal) :: B)).1 =
+      shared (z₂.runOps arc posInf (.rast r :: .call (.reset vb pal) :: B)).1 := by
+  rw [runOps_rast, runOps_rast]
+  exact reset_forgets_hist arc posInf (z₁.setRasterizer r) (z₂.setRasterizer r) rfl vb pal B hB
+
+/-- **(c) `Reset; register-setting calls; SetRasterizer r; B`** (in particular `Reset; SetRasterizer r; B`):
+    the same, with `SetRasterizer` AFTER the `Reset` — the stale rectangle and scale that `Reset` used are
+    replaced before anything is drawn. -/
+theorem reset_rast_forgets (arc : ArcFn α β) (posInf : α) (z₁ z₂ : Renderer α β) (r : Rect)
+    (vb : ViewBox α) (pal : Palette) (S : List (Call α)) (hS : ∀ c ∈ S, isRegCall c = true)
+    (B : List (RenOp α)) (hB : WellBracketedOps false B) :
+    (z₁.runOps arc posInf (.call (.reset vb pal) :: (S.map .call ++ .rast r :: B))).2 =
+      (z₂.runOps arc posInf (.call (.reset vb pal) :: (S.map .call ++ .rast r :: B))).2 ∧
+    shared (z₁.runOps arc posInf (.call (.reset vb pal) :: (S.map .call ++ .rast r :: B))).1 =
+      shared (z₂.runOps arc posInf (.call (.reset vb pal) :: (S.map .call ++ .rast r :: B))).1 := by
+  have key : ∀ z : Renderer α β,
+      z.runOps arc posInf (.call (.reset vb pal) :: (S.map .call ++ .rast r :: B)) =
+        (((z.setRasterizer r).reset posInf vb pal).run arc posInf S).1.runOps arc posInf B := by
+    intro z
+    obtain ⟨c1, c2⟩ := rast_comm_regCalls arc posInf r S hS (z.reset posInf vb pal)
+    rw [runOps_reset, runOps_append, runOps_calls, runOps_rast, c2, List.nil_append,
+      ← rast_comm_reset, c1]
+  rw [key, key]
+  have h0 : shared ((z₁.setRasterizer r).reset posInf vb pal) = shared ((z₂.setRasterizer r).reset posInf vb pal) :=
+    reset_eqS posInf _ _ rfl vb pal
+  -- register-setting calls keep the two states `shared`-equal
+  have hSrel : ∀ (S : List (Call α)), (∀ c ∈ S, isRegCall c = true) → ∀ y₁ y₂ : Renderer α β,
+      shared y₁ = shared y₂ → shared (y₁.run arc posInf S).1 = shared (y₂.run arc posInf S).1 := by
+    intro S
+    induction S with
+    | nil => intro _ y₁ y₂ h; exact h
+    | cons c S ih =>
+      intro hS y₁ y₂ h
+      have hc := hS c (List.mem_cons_self ..)
+      have hp : pathStep false c = some false := by
+        cases c <;> simp only [isRegCall, Bool.false_eq_true] at hc <;> rfl
+      rw [Lemmas.RendererVM.run_cons, Lemmas.RendererVM.run_cons]
+      exact ih (fun c h => hS c (List.mem_cons_of_mem _ h)) _ _
+        (step_rel arc posInf false false y₁ y₂ c h hp).2
+  exact runOps_rel arc posInf B false _ _ (hSrel S hS _ _ h0) hB
+
+/-- **(c) reuse.**  A Renderer with ANY history `A` behind it (any number of earlier graphics at other
+    sizes, ending mid-path, …), pointed at `r` and `Reset`, makes exactly the rasteriser calls a fresh
+    (zero value) Renderer makes: the whole output is the output of `A` followed by the fresh one's. -/
+theorem reuse_hist (arc : ArcFn α β) (posInf : α) (z : Renderer α β) (A : List (RenOp α)) (r : Rect)
+    (vb : ViewBox α) (pal : Palette) (B : List (RenOp α)) (hB : WellBracketedOps false B) :
+    (z.runOps arc posInf (A ++ .rast r :: .call (.reset vb pal) :: B)).2 =
+      (z.runOps arc posInf A).2 ++
+        ((Renderer.zero : Renderer α β).runOps arc posInf (.rast r :: .call (.reset vb pal) :: B)).2 := by
+  rw [runOps_append]
+  exact congrArg _ (rast_reset_forgets arc posInf _ _ r vb pal B hB).1
+
+/-- … and with `SetRasterizer` after `Reset`. -/
+theorem reuse_hist' (arc : ArcFn α β) (posInf : α) (z : Renderer α β) (A : List (RenOp α)) (r : Rect)
+    (vb : ViewBox α) (pal : Palette) (B : List (RenOp α)) (hB : WellBracketedOps false B) :
+    (z.runOps arc posInf (A ++ .call (.reset vb pal) :: .rast r :: B)).2 =
+      (z.runOps arc posInf A).2 ++
+        ((Renderer.zero : Renderer α β).runOps arc posInf (.call (.reset vb pal) :: .rast r :: B)).2 := by
+  rw [runOps_append]
+  exact congrArg _ (reset_rast_forgets arc posInf _ _ r vb pal [] (fun _ h => by cases h) B hB).1
+
 end Ivg.RenderHist
